@@ -115,17 +115,6 @@ class Unbound(object):
         self.why = why
 
 
-def elem_sort(elem):
-    return {'int': I, 'real': R, 'cplx': CPLX}[elem]
-
-
-def arr_sort(ndim, elem='int'):
-    s = elem_sort(elem)
-    for _ in range(ndim):
-        s = z3.ArraySort(I, s)
-    return s
-
-
 def is_z3(v):
     return isinstance(v, z3.ExprRef)
 
@@ -201,6 +190,7 @@ class SpecTheory(object):
         self.funcs = {}      # name -> callable(*z3 args) -> z3 term
         self.decls = {}
         self.defs = {}       # name -> (param consts, body term): F(params) == body
+        self.macros = {}     # name -> (param consts, index const, element term): F(params)[c] == elt
         self.src = {}
         import inspect
         import textwrap
@@ -219,7 +209,10 @@ class SpecTheory(object):
             body = rets[0].value
             params = [a.arg for a in fdef.args.args]
             if isinstance(body, ast.ListComp):
-                # pointwise (macro) definition of an array-valued spec function
+                # pointwise definition of an array-valued spec function:  F(args)[c] == elt
+                d = z3.Function(name, *(argsorts + [retsort]))
+                self.decls[name] = d
+                self.funcs[name] = d
                 pending.append(('macro', name, params, f._spec_argtypes, body))
             else:
                 d = z3.Function(name, *(argsorts + [retsort]))      # uninterpreted; unfolded explicitly (fuel)
@@ -228,7 +221,13 @@ class SpecTheory(object):
                 pending.append(('rec', name, params, f._spec_argtypes, body))
         for kind, name, params, types, body in pending:
             if kind == 'macro':
-                self.funcs[name] = self._macro_fn(name, params, types, body)
+                consts = [z3.Const('%s_%s' % (name, p), self._sort(t)) for p, t in zip(params, types)]
+                env = {p: self._wrap(c, t) for p, t, c in zip(params, types, consts)}
+                var = body.generators[0].target.id
+                cv = z3.Const('%s_%s' % (name, var), I)
+                env[var] = cv
+                ev = SpecEval(self, env, {}, None, None)
+                self.macros[name] = (consts, cv, to_z3(ev.ev(body.elt)))
         for kind, name, params, types, body in pending:
             if kind == 'rec':
                 consts = [z3.Const('%s_%s' % (name, p), self._sort(t)) for p, t in zip(params, types)]
@@ -285,6 +284,8 @@ class SpecTheory(object):
         on the same VCs that are instant with one explicit level."""
         by_decl = {d.get_id(): (n, d) for n, d in self.decls.items()}
         seen_terms = {}
+        hv = {}
+        keep = list(formulas)     # keeps every visited ast alive so that ids stay unique
         out = []
         frontier = list(formulas)
         for level in range(fuel):
@@ -310,9 +311,18 @@ class SpecTheory(object):
             for i, e in apps.items():
                 seen_terms[i] = e
                 name = by_decl[e.decl().get_id()][0]
-                consts, body = self.defs[name]
                 args = e.children()
-                if not has_var(e):
+                if name in self.macros:
+                    if has_var(e, 0, hv):
+                        continue
+                    consts, cv, elt = self.macros[name]
+                    q = fresh('u', I)
+                    inst = z3.substitute(elt, *([(c, a) for c, a in zip(consts, args)] + [(cv, q)]))
+                    out.append(z3.ForAll([q], z3.Select(e, q) == inst, patterns=[z3.Select(e, q)]))
+                    new.append(inst)
+                    continue
+                consts, body = self.defs[name]
+                if not has_var(e, 0, hv):
                     inst = z3.substitute(body, *[(c, a) for c, a in zip(consts, args)])
                     out.append(e == inst)
                     new.append(inst)
@@ -327,7 +337,7 @@ class SpecTheory(object):
                         q = fresh('u', a.sort())
                         qs.append(q)
                         actual.append(q)
-                    elif has_var(a):
+                    elif has_var(a, 0, hv):
                         ok = False
                         break
                     else:
@@ -362,13 +372,10 @@ class SpecTheory(object):
                 zargs.append(as_num(a))
         if len(zargs) != len(f._spec_argtypes):
             raise ContractError('arity of %s' % name)
-        if name in self.decls:
-            r = fn(*zargs)
-            if f._spec_ret == 'int1':
-                return AV(r, (fresh('len', I),))
-            return r
-        # macro: args stay wrapped
-        return fn(*args)
+        r = fn(*zargs)
+        if f._spec_ret == 'int1':
+            return AV(r, (fresh('len', I),))
+        return r
 
 
 # ----------------------------------------------------------------------------- spec expression evaluator
@@ -574,20 +581,21 @@ class SpecEval(object):
         raise ContractError('unknown function %r in contract expression' % f)
 
 
-_hv_cache = {}
-
-
-def has_var(e):
-    i = e.get_id()
-    if i in _hv_cache:
-        return _hv_cache[i]
+def has_var(e, depth=0, cache=None):
+    """does e contain a de Bruijn variable that is free at binder depth `depth`?
+    (cache: per-call dict; z3 ast ids are only unique among live terms, so no global cache)"""
+    if cache is None:
+        cache = {}
+    key = (e.get_id(), depth)
+    if key in cache:
+        return cache[key]
     if z3.is_var(e):
-        r = True
+        r = z3.get_var_index(e) >= depth
     elif z3.is_quantifier(e):
-        r = True      # conservative: do not unfold applications whose arguments contain binders
+        r = has_var(e.body(), depth + e.num_vars(), cache)
     else:
-        r = any(has_var(c) for c in e.children())
-    _hv_cache[i] = r
+        r = any(has_var(c, depth, cache) for c in e.children())
+    cache[key] = r
     return r
 
 
@@ -651,12 +659,14 @@ def scalar_binop(op, a, b, node=None):
 
 def binop(op, a, b, node=None):
     if isinstance(a, AV) or isinstance(b, AV):
-        return array_binop(op, a, b, node)[0]
+        raise ContractError('array arithmetic in a contract expression (use xor1 or pointwise quantifiers)')
     return scalar_binop(op, a, b, node)
 
 
 def array_binop(op, a, b, node=None):
-    """elementwise; returns (AV, [shape-equality side conditions])"""
+    """elementwise; returns (AV, [shape-equality side conditions], [defining axioms]).
+    The result is a fresh array constant r with  forall idx. r[idx] == op(a[idx], b[idx])  (total: no range
+    guard, so that rows produced by the same operation from equal operands are equal as arrays)."""
     side = []
     av = a if isinstance(a, AV) else b
     if isinstance(a, AV) and isinstance(b, AV):
@@ -674,8 +684,21 @@ def array_binop(op, a, b, node=None):
             return t
         return v
     body = scalar_binop(op, at(a), at(b), node)
-    t = body
-    for k in reversed(idx):
-        t = z3.Lambda([k], t)
     elem = 'int' if z3.is_int(body) else 'real'
-    return AV(t, av.shape, elem), side
+    r = fresh('ew', arr_sort(av.ndim, elem))
+    lhs = r
+    for k in idx:
+        lhs = z3.Select(lhs, k)
+    axiom = z3.ForAll(idx, lhs == body, patterns=[lhs])
+    return AV(r, av.shape, elem), side, [axiom]
+
+
+def elem_sort(elem):
+    return {'int': I, 'real': R, 'cplx': CPLX}[elem]
+
+
+def arr_sort(ndim, elem='int'):
+    s_ = elem_sort(elem)
+    for _ in range(ndim):
+        s_ = z3.ArraySort(I, s_)
+    return s_
